@@ -1053,6 +1053,23 @@ def stage_two_colour(ctx):
                 ctx.nontriv(("explore", "two-colour", kind, math.floor(math.log10(s) + 0.5)))
 
 
+# ------------------------------------------------------------------------------------------
+# source tie: the two places that form the wave vector, as written now
+
+SRC_ITEMS = [
+    dict(file="holopy/scattering/imageformation.py", qualname="get_wavevec_from", name="wavevec_src", rettype="R",
+         params=[("schema", "obj")], attrs={"schema.illum_wavelen": "wl", "schema.medium_index": "nm"}),
+    dict(file="holopy/scattering/interface.py", qualname="calc_cross_sections", kwarg="medium_wavevec", name="xsec_wavevec_src",
+         rettype="R", params=[("illum_wavelen", "R"), ("medium_index", "R")]),
+]
+
+
+def stage_srctie(ctx):
+    from harness.lib import srctie
+    ok = srctie.run(ctx, "C04", "From HV Require Import C04.Model C04.Lemmas C04.Props.\n", SRC_ITEMS)
+    ctx.count("srctie:%s" % ("ok" if ok else "broken"))
+
+
 def run(ctx):
     ctx.rule = ("configurations = optics (5 wavelengths x 5 medium indices x 5 polarizations) x scatterer (sphere, 2-3 layer "
                 "sphere, 2-4 sphere cluster incl. layered members, spheroid, cylinder; real and absorbing indices) x detector "
@@ -1087,7 +1104,10 @@ def run(ctx):
         "(Fortran mie / scsmfo / ampld kernels, MieLensCalculator, Lens quadrature); ampld output is proportional to lam",
         "harness-side recording subclasses of the theories and wrappers around scatcoeffs / scatcoeffs_multi / amncalc / ampld / "
         "MieLensCalculator (module attributes replaced at run time; /repo is not edited)"]
+    ctx.trusted.append("source translator harness/lib/pysrc.py (python floats read as reals; see its docstring) for the source tie")
+    ctx.clauses_proved.append("source tie: get_wavevec_from and the medium_wavevec expression of calc_cross_sections, translated from the current source text on every run, are proved equal to the model wave vector; inverse scaling and index substitution restated for the translated source")
     guarded(ctx, "prove", ctx.prove)
+    guarded(ctx, "source-tie", stage_srctie, ctx)
     boot.boot()
     warnings.simplefilter("ignore")
     guarded(ctx, "mock", stage_mock, ctx)
@@ -1104,7 +1124,10 @@ def replay(ctx, data):
     boot.boot()
     warnings.simplefilter("ignore")
     d = data["data"]
-    if d.get("kind") == "explore-two-colour":
+    if d.get("kind") == "tie":
+        ctx.prove()
+        stage_srctie(ctx)
+    elif d.get("kind") == "explore-two-colour":
         ok = close_vec(two_colour(d["base"], d["s"], d["subst"]), two_colour(d["base"], 1.0, False), TOL)
         ctx.explored += 1
         print("replay: two-colour s=%r subst=%r -> %s" % (d["s"], d["subst"], "property holds" if ok else "property fails"))
